@@ -139,7 +139,9 @@ def scenario(draw, profile, big=False):
 
     # A static approximation of the run-time state keeps most generated ops enabled when reached
     # (the interpreter still re-checks every precondition and skips what does not hold).
-    glob = dict(nuev=0, nkput=0)
+    glob = dict(nuev=0, nkput=0, nact=0)
+    if "usched" in weights:
+        glob["nact"] = draw(st.sampled_from([0, 1, 2]))
 
     def gen_op(in_process, me=None, ps=None):
         k = draw(st.sampled_from(kinds))
@@ -261,7 +263,10 @@ def scenario(draw, profile, big=False):
         if k == "uresched":
             return "uresched %d %s" % (draw(st.integers(0, 3)), fhex(draw(st.sampled_from(DUR))))
         if k == "usched":
-            return "usched %s %s" % (fhex(draw(st.sampled_from(DUR))), draw(PRIOS))
+            act = ""
+            if glob["nact"] and draw(st.integers(0, 2)) == 0:
+                act = " act %d" % draw(st.integers(0, glob["nact"] - 1))
+            return "usched %s %s%s" % (fhex(draw(st.sampled_from(DUR))), draw(PRIOS), act)
         if k in ("timer_add", "timer_set"):
             return "%s %s %d" % (k, fhex(draw(st.sampled_from(DUR))), draw(st.sampled_from(TIMER_SIGS)))
         if k == "timers_clear":
@@ -309,6 +314,14 @@ def scenario(draw, profile, big=False):
     ncmds = draw(st.integers(0, 4))
     for _ in range(ncmds):
         lines.append("at %s %s %s" % (fhex(draw(st.sampled_from(TIMES))), draw(PRIOS), gen_op(False)))
+    # what user events do when they execute (besides waking their waiters): stop / restart / interrupt ...
+    for a in range(glob["nact"]):
+        tgtp = draw(st.sampled_from(pnames))
+        prog = draw(st.sampled_from([["stop %s 6" % tgtp], ["stop %s 6" % tgtp, "start %s" % tgtp],
+                                     ["interrupt %s -2 %s" % (tgtp, draw(PRIOS))], [gen_op(False)], [gen_op(False), gen_op(False)]]))
+        for o in prog:
+            if not o.startswith("usched"):
+                lines.append("action %d %s" % (a, o))
     return "\n".join(lines) + "\n"
 
 
@@ -397,12 +410,19 @@ def coincide(draw):
     for g in observed:
         L.append("observe C0 %s" % g)
     kind = draw(st.sampled_from(["cwait", "cwait", "acquire", "pacq", "bget", "bput", "oget", "oput", "kget",
-                                 "kput", "wait_proc", "wait_ev", "hold", "yield"]))
+                                 "kput", "wait_proc", "wait_ev", "wait_ev", "hold", "yield", "ptopup"]))
     nwait = draw(st.integers(1, 2))
+    if kind == "ptopup":
+        # a process that already holds units of a pool asks for more, gets a part and waits; a second
+        # waiter queues behind it; whatever ends the first wait rolls its partial grab back
+        L[3] = "pool P0 4"
+        nwait = 2
     # the holder (p0) makes the awaited thing unavailable and keeps it so until d
-    hold_ops = {"acquire": ["acquire R0"], "pacq": ["pacq P0 2"], "bput": ["bput B0 2"], "oput": ["oput Q0 7"],
-                "kput": ["kput K0 7 0"], "wait_ev": ["usched %s 0" % fhex(d)], "cwait": ["acquire R0", "pacq P0 1"]}
+    hold_ops = {"acquire": ["acquire R0"], "pacq": ["pacq P0 2"], "ptopup": ["pacq P0 2"], "bput": ["bput B0 2"], "oput": ["oput Q0 7"],
+                "kput": ["kput K0 7 0"], "wait_ev": ["usched %s 0%s" % (fhex(d), draw(st.sampled_from(["", " act 0"])))],
+                "cwait": ["acquire R0", "pacq P0 1"]}
     free_ops = {"acquire": ["release R0"], "pacq": ["prel P0 %d" % draw(st.integers(1, 2))],
+                "ptopup": draw(st.sampled_from([[], [], ["prel P0 %d" % draw(st.integers(1, 2))]])),
                 "bput": ["bget B0 %d" % draw(st.integers(1, 2))], "oput": ["oget Q0"], "kput": ["kget K0"],
                 "bget": ["bput B0 %d" % draw(st.integers(1, 2))], "oget": ["oput Q0 3"], "kget": ["kput K0 3 1"],
                 "cwait": ["ctrset 0 1", "csignal C0"], "wait_ev": [], "wait_proc": [], "hold": [], "yield": []}
@@ -421,11 +441,17 @@ def coincide(draw):
                "acquire": draw(st.sampled_from(["acquire R0", "preempt R0"])), "pacq": "pacq P0 %d" % draw(st.integers(1, 2)),
                "bget": "bget B0 %d" % draw(st.integers(1, 3)), "bput": "bput B0 %d" % draw(st.integers(1, 3)),
                "oget": "oget Q0", "oput": "oput Q0 1", "kget": "kget K0", "kput": "kput K0 1 0",
-               "wait_proc": "wait_proc p0", "wait_ev": "wait_ev 0", "hold": "hold %s" % fhex(d + 1.0), "yield": "yield"}[kind]
+               "wait_proc": "wait_proc p0", "wait_ev": "wait_ev 0", "hold": "hold %s" % fhex(d + 1.0), "yield": "yield",
+               "ptopup": "pacq P0 %d" % draw(st.integers(2, 3))}[kind]
     after = ["hold 0x1p1", "hold 0x0p0", "yield", "cwait C0 false 0 0", "acquire R0", "oget Q0", "wait_proc p0",
              "timer_add 0x1p0 4", "return 3"]
     for w in range(1, nwait + 1):
         L.append("proc p%d prio %s start 0 sprio 0" % (w, draw(PRIOS)))
+        if kind == "ptopup":
+            if w == 1:
+                L.append("op pacq P0 1")
+            else:
+                wait_op = "pacq P0 %d" % draw(st.integers(1, 2))
         if draw(st.integers(0, 4)) > 0:
             L.append("op timer_add %s %d" % (fhex(d), draw(st.sampled_from(TIMER_SIGS))))
             if draw(st.integers(0, 3)) == 0:
@@ -438,6 +464,12 @@ def coincide(draw):
     acts = ["interrupt p1 %d %s" % (draw(st.sampled_from(USER_SIGS)), draw(PRIOS)), "stop p1 3", "setprio p1 %s" % draw(PRIOS),
             "ccancel C0 p1", "cremove C0 p1", "csignal C0", "ctrset 0 1", "resume p1 %d" % draw(st.sampled_from([0, 5])),
             "stop p0 2", "ucancel 0", "kcancel K0 0", "interrupt p0 9 0"]
+    if kind == "wait_ev":
+        # the awaited event itself acts on its waiters
+        for o in draw(st.sampled_from([["stop p1 6"], ["stop p1 6", "start p1"], ["stop p1 6", "start p1"],
+                                       ["interrupt p1 -2 %s" % draw(PRIOS)],
+                                       ["ftimers_clear p1"], ["setprio p1 %s" % draw(PRIOS)], ["stop p0 1"]])):
+            L.append("action 0 " + o)
     # somebody else handling the waiter's timers (documented: "pp: usually the calling process itself")
     acts += ["ftimers_clear p1", "ftimer_add p1 %s %d" % (fhex(draw(st.sampled_from([0.0, 0.0, 1.0]))), draw(st.sampled_from(TIMER_SIGS))),
              "ftimer_cancel p1 %d" % draw(st.integers(0, 1))]
@@ -595,4 +627,79 @@ def churn(draw):
             L.append("at %s %d stop p%d 1" % (fhex(T), draw(small), tgt))
         else:
             L.append("at %s %d interrupt p%d -2 %d" % (fhex(T), draw(small), tgt, draw(st.sampled_from([9, 9, 0, -9]))))
+    return "\n".join(L) + "\n"
+
+
+@st.composite
+def deep(draw):
+    """Populations of 6-14 in ONE container, where the shape of the underlying heap array matters
+    (entries in different subtrees, parents and children satisfied together, position queries on
+    deep entries): a priority queue filled by one producer and queried / reprioritised / cancelled by
+    handle; a condition with many waiters of different priorities of which some become satisfied at
+    each signal; a resource or pool with many waiters served one at a time while priorities change."""
+    kind = draw(st.sampled_from(["pq", "pq", "cond", "cond", "guard"]))
+    n = draw(st.integers(6, 14))
+    prio = st.integers(-3, 9)
+    L = ["mode sim", "start 0"]
+    if kind == "pq":
+        L += ["pq K0 %s" % draw(st.sampled_from(["unlimited", str(n), str(n + 3)]))]
+        L.append("proc p0 prio 0 start 0 sprio 0")
+        for i in range(n):
+            L.append("op kput K0 %d %d" % (i + 1, draw(prio)))
+            if draw(st.integers(0, 5)) == 0:
+                L.append("op kpos K0 %d" % draw(st.integers(0, i)))
+        for _ in range(draw(st.integers(0, 3))):
+            L.append("op " + draw(st.sampled_from(["kreprio K0 %d %d" % (draw(st.integers(0, n - 1)), draw(prio)),
+                                                   "kcancel K0 %d" % draw(st.integers(0, n - 1)), "kget K0"])))
+        for i in draw(st.permutations(list(range(n)))):
+            L.append("op kpos K0 %d" % i)
+        L.append("op hold 0x1p0")
+        for i in range(n):
+            L.append("op kget K0")
+        if draw(st.booleans()):
+            # a consumer that takes some of them first
+            L.append("proc p1 prio 0 start %s sprio 0" % fhex(draw(st.sampled_from([0.0, 0.5]))))
+            for _ in range(draw(st.integers(1, 4))):
+                L.append("op kget K0")
+    elif kind == "cond":
+        obs = draw(st.booleans())
+        L += ["res R0", "cond C0"] + (["observe C0 R0"] if obs else [])
+        L.append("proc p0 prio %d start 0 sprio 5" % draw(prio))
+        L.append("op acquire R0")
+        L.append("op hold 0x1p2")
+        for step in range(1, 4):
+            L.append("op ctrset 0 %d" % step)
+            if draw(st.booleans()):
+                L.append("op ctrset 1 %d" % draw(st.integers(0, 1)))
+            L.append("op " + (draw(st.sampled_from(["csignal C0", "release R0"])) if obs else "csignal C0"))
+            if obs:
+                L.append("op acquire R0")
+            L.append("op hold 0x1p0")
+        L.append("op ctrset 0 9")
+        L.append("op ctrset 1 9")
+        L.append("op csignal C0")
+        for w in range(1, n + 1):
+            L.append("proc p%d prio %d start %s sprio 0" % (w, draw(prio), fhex(draw(st.sampled_from([0.0, 0.0, 0.5, 1.0, 2.0, 3.0])))))
+            L.append("op cwait C0 %s" % draw(st.sampled_from(["ctr 0 1", "ctr 0 2", "ctr 0 2", "ctr 0 3", "ctr 0 3", "ctr 1 1",
+                                                              "ctr 0 9"])))
+            L.append(draw(st.sampled_from(["op hold 0x0p0", "op return 2", "op cwait C0 ctr 0 9"])))
+        for _ in range(draw(st.integers(0, 2))):
+            L.append("at %s %d setprio p%d %d" % (fhex(draw(st.sampled_from([1.0, 3.0, 4.5]))), draw(prio),
+                                                  draw(st.integers(1, n)), draw(prio)))
+    else:
+        pool = draw(st.booleans())
+        L += ["pool P0 2"] if pool else ["res R0"]
+        L.append("proc p0 prio 9 start 0 sprio 9")
+        L.append("op pacq P0 2" if pool else "op acquire R0")
+        L.append("op hold 0x1p2")
+        L.append("op prel P0 2" if pool else "op release R0")
+        for w in range(1, n + 1):
+            L.append("proc p%d prio %d start %s sprio %d" % (w, draw(st.sampled_from([0, 0, 1, 2])),
+                                                             fhex(draw(st.sampled_from([0.0, 0.5, 1.0, 1.0, 2.0, 3.0]))), draw(st.integers(-2, 2))))
+            L.append("op pacq P0 1" if pool else "op acquire R0")
+            L.append("op hold 0x1p0")
+            L.append("op prel P0 1" if pool else "op release R0")
+        for _ in range(draw(st.integers(1, 4))):
+            L.append("at %s %d setprio p%d %d" % (fhex(draw(st.sampled_from([1.0, 2.5, 3.0, 3.5]))), draw(st.integers(-2, 2)),
+                                                  draw(st.integers(1, n)), draw(st.sampled_from([0, 1, 2, 2]))))
     return "\n".join(L) + "\n"
